@@ -3315,6 +3315,9 @@ impl Connection {
             Timer::PathValidation,
             now + 3 * cmp::max(self.pto(SpaceId::Data), prev_pto),
         );
+        // Nothing is in flight on the new path yet: a probe timeout armed for the old path must not
+        // fire against it
+        self.set_loss_detection_timer(now);
     }
 
     /// Handle a change in the local address, i.e. an active migration
